@@ -52,6 +52,9 @@ def sym_val(engine, st, ty, hint):
         st.assume(z3.And(Val.id(t) >= INPUT_LO, Val.id(t) < FRESH_BASE))
     if ty == "future":
         engine.touch_future(st, Val.id(t))
+    if isinstance(ty, tuple) and ty[0] in ("list", "deque", "set", "dict") and ty[-1] != "owned":
+        from .vals import list_owner
+        st.assume(list_owner(Val.id(t)) == 0)       # a container supplied by the caller
     return engine.typed(st, t, ty, assume=False)
 
 
